@@ -20,7 +20,7 @@ import (
 
 var toksModel = []string{"a", "b", "ab", " ", "  ", "\t", "$x", "$y", "$z", "${x}", "${y}", "$x_", "'q r'", "'$x'", "''", "\"\"", "\"d $x e\"", "\"$y\"", "\"${z}\"",
 	"\\$", "\\\\", "\\a", "\\\"", "\\ ", "~", "~/p", "$", "é", "-", ".", "/", ":", "\"\\$x\\a\\\"\"", "\"$\"", "x", "_"}
-var toksWide = []string{"{a,b}", "$((1+2))", "${x:-d}", "${#x}", "*", "?", "a=b", "#c", "${z:+w}", "{1..3}", "$'t'", "\"~\"", "a{b,c}d", "$((2*3))", "\\~", "[", "!", "${x%b}"}
+var toksWide = []string{"{a,b}", "$((1+2))", "${x:-d}", "${#x}", "*", "?", "a=b", "#c", "${z:+w}", "{1..3}", "$'t'", "\"~\"", "a{b,c}d", "$((2*3))", "\\~", "[", "!", "${x%b}", "${y-d}", "${z+w}", "\"${y-d}\""}
 var toksBad = []string{"\"", "'", "${x", "${", "${x!}", "\"a", "'b", "${x "}
 
 type Env map[string]string
